@@ -145,6 +145,10 @@ def oracle(case, obs, raw):
             tg = aio_of.get(int(t[1][1:]))
             if tg is not None:
                 cur[tg] = None      # whatever it was, the state machine may have been aborted
+        if op == "sent" and o["rv"] == 0:
+            # the transport has taken what this pipe was sending: whatever it shows now - even the same request
+            # again (a retransmission) - is a new hand-over
+            tx_seen.pop(int(t[1][1:]), None)
         for i, p in o["pipes"].items():
             tx = p.get("tx")
             if tx != tx_seen.get(i):
